@@ -3,6 +3,8 @@ package props
 import (
 	"encoding/json"
 	"fmt"
+	"os"
+	"path/filepath"
 	"strings"
 
 	"verif/mc/drive"
@@ -223,6 +225,127 @@ func c04Graph(c *fw.Ctx, seq []int) *fw.Violation {
 	return nil
 }
 
+// ----- documents changed by the program: -o writes the value the root now represents -----
+
+// c04Mutators: every way a program can change the document, each guarded so that it applies to whatever shape the
+// document has; most contain no assignment at all (the change goes through a method, a callee, an alias).
+func c04Mutators() []*Program {
+	isA := func(e Expr) Expr { return &IsExpr{e, "array"} }
+	isO := func(e Expr) Expr { return &IsExpr{e, "object"} }
+	when := func(c Expr, st ...Stmt) Stmt { return &If{Cond: c, Then: Blk(st...)} }
+	call := func(recv Expr, m string, args ...Expr) Stmt { return Ex(CallE(Mem(recv, m), args...)) }
+	bf := func(st ...Stmt) *Program { return &Program{Rules: []*Rule{{Kind: "BEGINFILE", Body: Blk(st...)}}} }
+	d := V("$")
+	f := &Func{Name: "f", Params: []string{"v"}, Body: Blk(when(isA(V("v")), call(V("v"), "push", S("callee"))), when(isO(V("v")), Ex(Asg("=", Mem(V("v"), "callee"), N("1")))))}
+	return []*Program{
+		bf(when(isA(d), call(d, "push", N("7")))),
+		bf(when(isA(d), call(d, "pop"))),
+		bf(when(isA(d), call(d, "popfirst"))),
+		bf(when(isA(d), call(d, "push", Arr_()), call(d, "push", &ObjLit{}))),
+		bf(when(isA(Mem(d, "a")), call(Mem(d, "a"), "push", S("s"))), when(isA(Idx(d, N("0"))), call(Idx(d, N("0")), "pop"))),
+		{Funcs: []*Func{f}, Rules: []*Rule{{Kind: "BEGINFILE", Body: Blk(Ex(CallE(V("f"), d)))}}},
+		{Funcs: []*Func{f}, Rules: []*Rule{{Body: Blk(Ex(CallE(V("f"), d)))}}},
+		{Rules: []*Rule{{Body: Blk(when(isA(d), call(d, "push", V("$index"))))}}},
+		{Rules: []*Rule{{Kind: "ENDFILE", Body: Blk(when(isA(d), call(d, "popfirst"), call(d, "push", S("last"))))}}},
+		bf(when(isO(d), Ex(Asg("=", Mem(d, "a"), Arr_()))), when(isA(d), Ex(Asg("=", Idx(d, N("1")), &ObjLit{})))),
+		bf(when(isO(d), Ex(Asg("=", Mem(Mem(d, "n"), "m"), N("2")))), when(isA(d), Ex(Asg("=", Idx(d, N("3")), S("far"))))),
+		bf(Ex(Asg("=", V("x"), d)), when(isA(V("x")), call(V("x"), "push", N("2"))), when(isO(V("x")), Ex(Asg("=", Mem(V("x"), "z"), Arr_(V("x")))), Ex(Asg("=", Mem(V("x"), "z"), N("0"))))),
+		{Rules: []*Rule{{Body: Blk(when(&IsExpr{d, "number"}, Ex(&Postfix{Op: "++", X: d})), when(&IsExpr{d, "string"}, Ex(Asg("+=", d, S("!")))))}}},
+	}
+}
+
+func c04Mutated(c *fw.Ctx, doc string, k int) *fw.Violation {
+	pc := &progCase{P: c04Mutators()[k], Files: []inFile{{"in.json", doc}}, Root: true}
+	v, res, skipped := pc.check(c)
+	if !skipped && v == nil {
+		c.State(fmt.Sprintf("mutated%d:%s", k, res.Kind))
+	}
+	return v
+}
+
+// ----- the command line with -o and a root JSON cannot express: an error and no fragment anywhere -----
+
+type c04CLISpec struct {
+	Form string `json:"form"`
+	Doc  int    `json:"doc"`
+	K    int    `json:"k"`   // the element that receives the inexpressible member (-1: none)
+	Bad  int    `json:"bad"` // which inexpressible value
+	Out  int    `json:"out"` // 0: -o -, 1: -o FILE over an older file, 2: -o FILE that does not exist yet
+}
+
+var c04CLIDocs = []string{`[{"id":1},{"id":2},{"id":3}]`, `[{"id":1}]`, `{"id":1}`, `[[1],[2]]`}
+var c04CLIBad = []string{`$`, `/x/`, `num("inf")`, `-num("inf")`, `[$]`, `{k: [1, $]}`}
+
+const c04Stale = "stale content of an earlier run\n"
+
+func c04CLI(c *fw.Ctx, s c04CLISpec) *fw.Violation {
+	doc := c04CLIDocs[s.Doc]
+	prog := fmt.Sprintf("$index == %d { if ($ is array) { $.push(%s) } else { $.bad = %s } }", s.K, c04CLIBad[s.Bad], c04CLIBad[s.Bad])
+	if doc[0] == '{' {
+		if s.K > 0 {
+			return nil
+		}
+		prog = fmt.Sprintf("{ $.bad = %s }", c04CLIBad[s.Bad])
+		if s.K < 0 {
+			prog = "{ x = 1 }"
+		}
+	}
+	dir := c14Dirs(c)
+	outPath := filepath.Join(dir, "c04-out.json")
+	os.Remove(outPath)
+	argv := []string{"-o", "-"}
+	if s.Out > 0 {
+		argv = []string{"-o", outPath}
+		if s.Out == 1 {
+			os.WriteFile(outPath, []byte(strings.Repeat(c04Stale, 40)), 0o644)
+		}
+	}
+	argv = append(argv, prog)
+	got := c14Exec(argv, doc)
+	c.Evals++
+	c.Traces++
+	c.Transitions++
+	file, ferr := os.ReadFile(outPath)
+	os.Remove(outPath)
+	fail := func(what string) *fw.Violation {
+		return &fw.Violation{What: what, Detail: map[string]any{"argv": argv, "stdin": doc, "got": got, "file_exists": ferr == nil, "file": clip(string(file))}}
+	}
+	for _, bad := range []string{"panic:", "goroutine ", "fatal error", "SIGSEGV"} {
+		if strings.Contains(got.Stderr, bad) {
+			return fail("the binary ended in a Go stack trace")
+		}
+	}
+	want, _ := ParseJSON(doc)
+	if s.K < 0 {
+		// control: nothing inexpressible, the document comes back
+		text := got.Stdout
+		if s.Out > 0 {
+			text = string(file)
+		}
+		n, ok := ParseJSON(text)
+		if got.Exit != 0 || !ok || !EqualNodes(n, want) {
+			return fail("-o of an unmodified document is not the document")
+		}
+		c.State("cli: document written")
+		return nil
+	}
+	c.State(fmt.Sprintf("cli: refusal doc=%d out=%d", s.Doc, s.Out))
+	c.NonTrivial("cli refused:" + c04CLIBad[s.Bad])
+	if got.Exit == 0 {
+		return fail("a root JSON cannot express was written with exit status 0")
+	}
+	if strings.TrimSpace(got.Stderr) == "" {
+		return fail("a root JSON cannot express was refused without a diagnostic")
+	}
+	if got.Stdout != "" {
+		return fail("a root JSON cannot express was refused after part of it was written to standard output")
+	}
+	if ferr == nil && len(file) > 0 && !(s.Out == 1 && string(file) == strings.Repeat(c04Stale, 40)) {
+		return fail("a root JSON cannot express was refused but the -o file holds a fragment")
+	}
+	return nil
+}
+
 func init() {
 	var full, deep, narrow, extra *docGen
 	var sweep []float64
@@ -244,7 +367,8 @@ func init() {
 	glen := func(c *fw.Ctx) int { return c.Pick(3, 4) }
 	fw.Register(&fw.Prop{
 		ID: "C04",
-		Rule: "all JSON trees of depth <= 2 / width <= 2 over 12 scalars, all depth <= 4 / width 1 trees, a structured sweep of doubles, each through json($) and through -o unmodified; narrow documents through 21 sub-document selectors with -o; " +
+		Rule: "all JSON trees of depth <= 2 / width <= 2 over 12 scalars, all depth <= 4 / width 1 trees, a structured sweep of doubles, each through json($) and through -o unmodified; narrow documents through 21 sub-document selectors with -o, and changed by 13 mutating programs (push / pop / popfirst, through a callee, an alias, per element, in ENDFILE, stores that create and pad; most without any assignment) with -o compared to the model's root; " +
+			"the real binary with -o - / -o FILE (over an older file, new) on 4 documents whose element k receives one of 6 inexpressible values: non-zero exit, a diagnostic, nothing on stdout and no fragment in the file; " +
 			"all programs of <= L heap-building statements (cycles, sharing, regex / unset / non-finite members) followed by json() of every variable; oracle: the output parses with an independent RFC 8259 reader to a value equal to the document / the model's value, " +
 			"and a value is refused iff the model's heap has a cycle, regex or non-finite number in it; non-trivial = refusal classes; states = document shape classes, selector outcomes, graph outcome classes",
 		Plan: func(t fw.Tier) int { return docUnits + 1 + 1 + len(c04Ops) },
@@ -279,6 +403,25 @@ func init() {
 						sel := sel
 						c.Do(func() any { return c04Spec{Form: "sel", Doc: doc, Sel: sel} }, func() *fw.Violation { return c04Sel(c, doc, sel) })
 					}
+					for k := range c04Mutators() {
+						k := k
+						c.Do(func() any { return c04Spec{Form: "mutated", Doc: doc, Sel: k} }, func() *fw.Violation { return c04Mutated(c, doc, k) })
+					}
+				}
+			case u == docUnits+1:
+				c.Do(func() any { return c04Spec{Form: "graph"} }, func() *fw.Violation { return c04Graph(c, nil) })
+				for d := range c04CLIDocs {
+					for k := -1; k < 3; k++ {
+						for b := range c04CLIBad {
+							for out := 0; out < 3; out++ {
+								if (k < 0 && b > 0) || (k >= 0 && k >= len(c04CLIDocs[d])/8) {
+									continue
+								}
+								s := c04CLISpec{Form: "cli", Doc: d, K: k, Bad: b, Out: out}
+								c.Do(func() any { return s }, func() *fw.Violation { return c04CLI(c, s) })
+							}
+						}
+					}
 				}
 			case u == docUnits:
 				// one call site over batches of documents, in enumeration order and reversed
@@ -312,12 +455,22 @@ func init() {
 			}
 		},
 		Replay: func(c *fw.Ctx, raw json.RawMessage) *fw.Violation {
+			var probe struct {
+				Form string `json:"form"`
+			}
+			if unmarshal(raw, &probe) && probe.Form == "cli" {
+				var cs c04CLISpec
+				unmarshal(raw, &cs)
+				return c04CLI(c, cs)
+			}
 			var s c04Spec
 			if !unmarshal(raw, &s) {
 				return nil
 			}
 			setup(c.Tier)
 			switch s.Form {
+			case "mutated":
+				return c04Mutated(c, s.Doc, s.Sel)
 			case "doc":
 				return c04Doc(c, s.Doc)
 			case "sel":
